@@ -9,6 +9,7 @@
 #   * `json_amt ..`    : as_pico writes the integer, as_xmr the exact 12-decimal string (python integer arithmetic); what
 #                        comes back is the same amount, except that monero strings above 2^63-1 in magnitude are refused
 #                        (the limit of C15); a sequence comes back iff every element does;
+#   * `json_str s`     : the JSON text of a string is python's own (json.dumps, ensure_ascii=False: the same escape table);
 #   * `json_addr_bad s`: the JSON string s is an Address iff python's own base58 + blob parser (lib/props/c12.py) accepts it;
 #   * `json_de T j`    : (a) the implementation's own text, re-read by python and handed over as JSON tokens, must give back
 #                        the value (this is also how the MODEL's reader is tied to serde_json's output); (b) members
@@ -400,6 +401,7 @@ class C19(Check):
             "rct_base, rct_prunable, rct_sig), hashes, varint/u8/u32 boundaries, subaddress indices, addresses (9 network x type "
             "x valid key pairs; hand-built addresses with invalid keys as the refusing class); json_amt: as_pico/as_xmr plain, opt, "
             "slice/vec for Amount {0,1,10^12-1,10^12,2^63-1,2^63,2^64-1,random} and SignedAmount {0,+-1,+-(2^63-1),-2^63,random}; "
+            "json_str: every character U+0000..U+00FF, UTF-8 length boundaries, random strings rich in controls, quote, backslash; "
             "json_addr_bad: valid texts, one-character changes, truncation/extension, foreign characters, escapes, invalid keys "
             "under a correct checksum; json_de: the implementation's own output re-read (python json.loads -> JSON tokens), "
             "members re-ordered / unknown members added at every level, and single structural mutations (dropped, duplicated, "
@@ -585,6 +587,17 @@ class C19(Check):
         for line in [c.line for c in cs if c.line.startswith("json_addr_bad ")]:
             self.expect[line] = addr_bad_expected(A.unhx(line.split(" ")[1]))
 
+        # ---- the printer's string escapes (never needed by the values above: tied separately)
+        for cp in list(range(0, 0x100)) + [0x2028, 0x2029, 0xfeff, 0xfffd, 0x1f600, 0x10ffff, 0x7ff, 0x800, 0xffff, 0x10000]:
+            add("json_str " + chr(cp).encode().hex(), "str/single-char")
+        add("json_str -", "str/empty")
+        add("json_str " + "".join(chr(c) for c in range(0x30)).encode().hex(), "str/all-controls")
+        for _ in range(150 if not thorough else 3000):
+            n = rng.randint(1, 40)
+            t = "".join(chr(rng.choice([rng.randrange(0x20), 0x22, 0x5c, 0x2f, 0x7f, rng.randrange(0x20, 0x7f), rng.randrange(0x80, 0x800),
+                                        rng.randrange(0x800, 0xd800), rng.randrange(0x10000, 0x110000)])) for _ in range(n))
+            add("json_str " + t.encode().hex(), "str/random")
+
         # ---- json_de: the implementation's own text re-read, re-ordered, with unknown members; structural mutations
         small = [(T, toks, cls) for T, toks, cls in values if sum(len(t) for t in toks) < 6000]
         rng.shuffle(small)
@@ -652,6 +665,12 @@ class C19(Check):
                 return "JSON of the %s differs from the expected representation: %s vs %s" % (T, text[:200], compact(want)[:200])
             if text != compact(want).encode():
                 return "JSON text of the %s is not the compact form in declaration order: %s" % (T, text[:200])
+            return None
+        if op == "json_str":
+            t = A.unhx(line.split(" ")[1]).decode()
+            want = json.dumps(t, ensure_ascii=False).encode()
+            if w[0] != "OK" or A.unhx(w[1]) != want:
+                return "string %r written as %s, expected %r" % (t, impl[:100], want)
             return None
         if op == "json_amt":
             text, back = amt_expected(line)
